@@ -1,8 +1,126 @@
-/- Driver handler of C06: protocol line (already split into tokens, without the leading "c06") -> answer. -/
+/-
+  Driver handler of C06: one whole history per line.
+
+    c06 cfg <ci> <ct> cells <n> <cell>×n ops <op>*
+      <ci>,<ct>   configured iterations (integer) / tolerance (n:p/q), `_` = None
+      <cell>      v <val>                       input cell (val = n:p/q | z)
+                  f <val> <expr>                formula cell with stored value; <expr> in prefix form:
+                                                n:p/q | r<c> | S:<c1>,<c2>,… | + a b | - a b | * a b | E a b x y | L a b x y | P a
+      <op>        set <c> <val>  |  ev <ai> <at> <cnt> <m> <p1> … <pm> <k> <t1> … <tk>
+                  (cnt = cell whose evaluations are counted, `_` = none; p = cells evaluated by graph construction)
+  Answer: one item per `ev`, joined by ';':  <v1>,<v2>,…/<count>   then  ` # ` and diagnostics (passes, out-of-fuel).
+-/
 import Pycel.Model.Proto
+import Pycel.Model.Iter
 namespace Pycel.Drv.C06
+open Pycel Pycel.Iter
+
+def decV? (t : String) : Option V :=
+  if t = "z" then some none
+  else if t.startsWith "n:" then (decRat? (t.drop 2).toString).map some
+  else none
+
+def encV : V → String
+  | none => "z"
+  | some q => encRat q
+
+def optInt? (t : String) : Option (Option Int) :=
+  if t = "_" then some none else t.toInt?.map some
+
+def optRat? (t : String) : Option (Option Rat) :=
+  if t = "_" then some none
+  else if t.startsWith "n:" then (decRat? (t.drop 2).toString).map some
+  else none
+
+partial def parseExpr : List String → Option (Expr × List String)
+  | [] => none
+  | t :: ts =>
+    if t.startsWith "n:" then (decRat? (t.drop 2).toString).map fun q => (.lit q, ts)
+    else if t.startsWith "r" then (t.drop 1).toString.toNat?.map fun c => (.ref c, ts)
+    else if t.startsWith "S:" then
+      (((t.drop 2).toString.splitOn ",").mapM fun (x : String) => x.toNat?).map fun cs => (.sum cs, ts)
+    else if t = "+" ∨ t = "-" ∨ t = "*" then do
+      let (a, r1) ← parseExpr ts
+      let (b, r2) ← parseExpr r1
+      let op := if t = "+" then BinOp.add else if t = "-" then BinOp.sub else BinOp.mul
+      some (.bin op a b, r2)
+    else if t = "E" ∨ t = "L" then do
+      let (a, r1) ← parseExpr ts
+      let (b, r2) ← parseExpr r1
+      let (x, r3) ← parseExpr r2
+      let (y, r4) ← parseExpr r3
+      some (.ifc (t = "L") a b x y, r4)
+    else if t = "P" then do
+      let (a, r1) ← parseExpr ts
+      some (.plug a, r1)
+    else none
+
+/-- parse `n` cells: returns (formulas, initial cells) -/
+partial def parseCells : Nat → Nat → List String → Option (List (Option Formula) × Cells × List String)
+  | 0, _, ts => some ([], [], ts)
+  | n + 1, i, "v" :: v :: ts => do
+    let x ← decV? v
+    let (fs, cs, r) ← parseCells n (i + 1) ts
+    some (none :: fs, (i, ⟨x, none, false⟩) :: cs, r)
+  | n + 1, i, "f" :: v :: ts => do
+    let x ← decV? v
+    let (e, r0) ← parseExpr ts
+    let (fs, cs, r) ← parseCells n (i + 1) r0
+    some (some e.toFormula :: fs, (i, ⟨x, none, false⟩) :: cs, r)
+  | _, _, _ => none
+
+partial def parseOps : List String → Option (List (Op × Option Nat))
+  | [] => some []
+  | "set" :: c :: v :: ts => do
+    let c ← c.toNat?
+    let v ← decV? v
+    let r ← parseOps ts
+    some ((.set c v, none) :: r)
+  | "ev" :: ai :: at_ :: cnt :: k :: ts => do
+    let ai ← optInt? ai
+    let at_ ← optRat? at_
+    let cnt ← if cnt = "_" then some none else cnt.toNat?.map some
+    let m ← k.toNat?
+    let pre ← (ts.take m).mapM fun (x : String) => x.toNat?
+    if pre.length ≠ m then none else
+    match ts.drop m with
+    | k :: ts =>
+      let k ← k.toNat?
+      let tg ← (ts.take k).mapM fun (x : String) => x.toNat?
+      if tg.length ≠ k then none else
+      let r ← parseOps (ts.drop k)
+      some ((.eval pre tg ai at_, cnt) :: r)
+    | [] => none
+  | _ => none
+
+def runAll (wb : Workbook) (ci : Option Int) (ct : Option Rat) (fuel : Nat) :
+    List (Op × Option Nat) → St → List String × List String
+  | [], _ => ([], [])
+  | (.set c v, _) :: ops, s => runAll wb ci ct fuel ops (setInput s c v)
+  | (.eval pre tg ai at_, cnt) :: ops, s =>
+    let r := evaluateIter wb ci ai ct at_ fuel pre tg { s with evals := [] }
+    let count := match cnt with
+      | none => 0
+      | some c => (r.2.2.evals.filter (· = c)).length
+    let item := ",".intercalate (r.2.1.map encV) ++ "/" ++ toString count
+    let diag := s!"p{r.1}" ++ (if r.2.2.oof then "!oof" else "")
+    let rest := runAll wb ci ct fuel ops r.2.2
+    (item :: rest.1, diag :: rest.2)
 
 def handle : List String → String
+  | "c06" :: "cfg" :: ci :: ct :: "cells" :: n :: rest =>
+    match optInt? ci, optRat? ct, n.toNat? with
+    | some ci, some ct, some n =>
+      match parseCells n 0 rest with
+      | some (fs, cells, "ops" :: opsToks) =>
+        match parseOps opsToks with
+        | some ops =>
+          let wb : Workbook := fun c => (fs.getD c none)
+          let out := runAll wb ci ct (n + 1) ops (initState cells)
+          ";".intercalate out.1 ++ " # " ++ ",".intercalate out.2
+        | none => "!bad-ops"
+      | _ => "!bad-cells"
+    | _, _, _ => "!bad-arg"
   | _ => "!bad-op"
 
 end Pycel.Drv.C06
